@@ -255,8 +255,13 @@ def _check_core(ctx):
     cmp_(a2a, asg["total_cost"], asg["total_cost"], "(shape_repeats - 1) * volume", "all-to-all total hops", env2)
     cmp_(a2a, asg["max_hops"], asg["max_hops"], "1", "all-to-all max hops", env2)
     inner = [s for s in arm.body if isinstance(s, ast.If) and "isinstance(relevancy, Irrelevant)" == norm(s.test)]
-    ctx.require(len(inner) == 1 and inner[0].orelse, R, "all-to-all multicast/unicast split")
-    mt = _arm_assignments(inner[0].body).get("max_traffic"); ut = _arm_assignments(inner[0].orelse).get("max_traffic")
+    # statement form, or (K8) `max_traffic = <multicast> if isinstance(relevancy, Irrelevant) else <unicast>`
+    cond = [s.value for s in arm.body if isinstance(s, ast.Assign) and norm(s.targets[0]) == "max_traffic" and isinstance(s.value, ast.IfExp) and norm(s.value.test) == "isinstance(relevancy, Irrelevant)"]
+    ctx.require((len(inner) == 1 and inner[0].orelse) or len(cond) == 1, R, "all-to-all multicast/unicast split")
+    if cond:
+        mt, ut = cond[0].body, cond[0].orelse
+    else:
+        mt = _arm_assignments(inner[0].body).get("max_traffic"); ut = _arm_assignments(inner[0].orelse).get("max_traffic")
     ctx.require(mt is not None and ut is not None, R, "all-to-all max_traffic")
     cmp_(a2a, mt, mt, "volume", "all-to-all multicast max link traffic", env2)
     cmp_(a2a, ut, ut, "(shape_repeats - 1) * volume", "all-to-all unicast max link traffic", env2)
